@@ -183,4 +183,74 @@ example : parseNum " 12 ".toList = ofNat 12 ∧ parseNum "1e3".toList = nanBits 
 example : divB (ofNat 1) (negB 0) = infBits true := by decide
 example : modB (ofNat 5) (ofInt (-2)) = ofNat 1 ∧ modB (ofInt (-5)) (ofNat 2) = ofInt (-1) := by decide
 
+/-! ### normalize-space, for every string (added 2026-09-23) -/
+/-- every white-space character is a single U+0020 directly followed by a non-white-space character -/
+def wellSpaced : Str → Bool
+  | [] => true
+  | c :: r => (if isXmlWs c then c == ' ' && (match r with | d :: _ => !isXmlWs d | [] => false) else true) && wellSpaced r
+
+theorem go_wellSpaced : ∀ (r : Str) (pend : Bool), wellSpaced (normalizeSpace.go r pend) = true := by
+  intro r
+  induction r with
+  | nil => intro pend; rfl
+  | cons c r ih =>
+    intro pend
+    by_cases hc : isXmlWs c = true
+    · simp only [normalizeSpace.go, hc, if_true]; exact ih true
+    · have hc' : isXmlWs c = false := by simpa using hc
+      cases pend
+      · simp [normalizeSpace.go, hc', wellSpaced, ih false]
+      · have hs : isXmlWs ' ' = true := by decide
+        simp [normalizeSpace.go, hc', wellSpaced, ih false, hs]
+
+theorem go_nonws : ∀ (r : Str) (pend : Bool),
+    (normalizeSpace.go r pend).filter (fun c => !isXmlWs c) = r.filter (fun c => !isXmlWs c) := by
+  intro r
+  induction r with
+  | nil => intro pend; rfl
+  | cons c r ih =>
+    intro pend
+    by_cases hc : isXmlWs c = true
+    · simp [normalizeSpace.go, hc, ih true]
+    · have hc' : isXmlWs c = false := by simpa using hc
+      have hs : isXmlWs ' ' = true := by decide
+      cases pend <;> simp [normalizeSpace.go, hc', hs, ih false]
+
+theorem filter_dropWhile_ws (s : Str) :
+    (s.dropWhile isXmlWs).filter (fun c => !isXmlWs c) = s.filter (fun c => !isXmlWs c) := by
+  induction s with
+  | nil => rfl
+  | cons c r ih =>
+    by_cases hc : isXmlWs c = true
+    · simp [List.dropWhile, hc, ih]
+    · have hc' : isXmlWs c = false := by simpa using hc
+      simp [List.dropWhile, hc']
+
+/-- normalize-space keeps exactly the non-white-space characters, in order, for every string -/
+theorem normalize_space_keeps_nonws (s : Str) :
+    (normalizeSpace s).filter (fun c => !isXmlWs c) = s.filter (fun c => !isXmlWs c) := by
+  rw [← filter_dropWhile_ws s]
+  unfold normalizeSpace
+  cases h : s.dropWhile isXmlWs with
+  | nil => rfl
+  | cons c r =>
+    simp only [List.filter_cons, go_nonws]
+
+/-- in the result every white-space character is one U+0020 between two non-white-space characters:
+    no leading, no trailing, no repeated white space, and tab / CR / LF never survive -/
+theorem normalize_space_wellSpaced (s : Str) :
+    wellSpaced (normalizeSpace s) = true ∧ (∀ c, (normalizeSpace s).head? = some c → isXmlWs c = false) := by
+  unfold normalizeSpace
+  cases h : s.dropWhile isXmlWs with
+  | nil => exact ⟨rfl, by simp⟩
+  | cons c r =>
+    have hc : isXmlWs c = false := by
+      have := List.head_dropWhile_not isXmlWs (l := s) (by simp [h])
+      simpa [h] using this
+    refine ⟨by simp [wellSpaced, hc, go_wellSpaced], ?_⟩
+    intro c' hc'; simp at hc'; subst hc'; exact hc
+
+example : normalizeSpace " \ta  b\n c ".toList = "a b c".toList ∧ wellSpaced "a b c".toList = true ∧
+    wellSpaced "a  b".toList = false ∧ wellSpaced "a ".toList = false := by decide
+
 end XmlRs.C09
